@@ -1062,7 +1062,9 @@ func (a *analyzer) analyzeHandlerBind(node *lisp.LVal, scope *Scope, currentPkg 
 		return
 	}
 	bindings := node.Cells[1]
-	if bindings.Type == lisp.LSExpr && !bindings.IsQuoted() {
+	// The binding list and its entries may be written with brackets (parsed
+	// as quoted lists); handler-bind takes them apart as syntax either way.
+	if bindings.Type == lisp.LSExpr {
 		for _, clause := range bindings.Cells {
 			if clause.Type != lisp.LSExpr || len(clause.Cells) < 2 {
 				continue
@@ -1087,7 +1089,10 @@ func (a *analyzer) analyzeCond(node *lisp.LVal, scope *Scope, currentPkg string)
 	// truthy value (well-known symbol from populateBuiltins), so it also
 	// serves as a default clause. Skip resolving both to avoid noise.
 	for _, clause := range node.Cells[1:] {
-		if clause.Type != lisp.LSExpr || clause.IsQuoted() || len(clause.Cells) == 0 {
+		// A clause written with brackets, [(test) body], is parsed as a quoted
+		// list; cond takes its clauses apart as syntax either way, so the
+		// test and the body of a bracketed clause are code like any other.
+		if clause.Type != lisp.LSExpr || len(clause.Cells) == 0 {
 			continue
 		}
 		test := clause.Cells[0]
